@@ -46,6 +46,9 @@ class Root:
     child: Optional[Child] = field(default=None, metadata={"type": "Element"})
     kids: list[Child] = field(default_factory=list, metadata={"type": "Element", "name": "kid", "wrapper": "kidlist"})
     more: list[str] = field(default_factory=list, metadata={"type": "Element", "wrapper": "morelist"})
+    sa: list[int] = field(default_factory=list, metadata={"type": "Element", "sequence": 1})
+    sb: Optional[str] = field(default=None, metadata={"type": "Element", "sequence": 1})
+    sc: list[Child] = field(default_factory=list, metadata={"type": "Element", "sequence": 1})
 '''
 INST_RICH = {"__cls__": "Root", "fields": {
     "ident": {"__p__": "int", "v": -42}, "kind": {"__p__": "str", "v": "a b<&\u00e9"},
@@ -56,7 +59,11 @@ INST_RICH = {"__cls__": "Root", "fields": {
     "child": {"__cls__": "Child", "fields": {"value": {"__p__": "int", "v": 5}, "flag": {"__p__": "bool", "v": True}, "tags": []}},
     "kids": [{"__cls__": "Child", "fields": {"value": None, "flag": None, "tags": [{"__p__": "int", "v": 4}, {"__p__": "int", "v": 5}]}},
              {"__cls__": "Child", "fields": {"value": {"__p__": "int", "v": -1}, "flag": {"__p__": "bool", "v": False}, "tags": []}}],
-    "more": []}}
+    "more": [],
+    "sa": [{"__p__": "int", "v": 1}, {"__p__": "int", "v": 2}, {"__p__": "int", "v": 3}],
+    "sb": {"__p__": "str", "v": "mid"},
+    "sc": [{"__cls__": "Child", "fields": {"value": {"__p__": "int", "v": 9}, "flag": None, "tags": []}},
+           {"__cls__": "Child", "fields": {"value": None, "flag": {"__p__": "bool", "v": True}, "tags": []}}]}}
 WITNESS_NIL = G.HEADER + '''
 @dataclass
 class B:
@@ -67,18 +74,27 @@ class A:
     b: Optional[B] = field(default=None, metadata={"type": "Element", "nillable": True})
 '''
 INST_NIL = {"__cls__": "A", "fields": {"b": {"__cls__": "B", "fields": {"x": {"__p__": "int", "v": 1}}}}}
+WITNESS_SEQTOK = G.HEADER + '''
+@dataclass
+class S:
+    x: list[str] = field(default_factory=list, metadata={"type": "Element", "tokens": True, "sequence": 1})
+    y: Optional[str] = field(default=None, metadata={"type": "Element", "sequence": 1})
+'''
+INST_SEQTOK = {"__cls__": "S", "fields": {"x": [{"__p__": "str", "v": "ab"}, {"__p__": "str", "v": "cd"}], "y": {"__p__": "str", "v": "q"}}}
 WITNESS_JOBS = [
     {"src": WITNESS_RICH, "name": "w_rich", "root": "Root", "instances": [INST_RICH], "cases": [
         {"i": 0, "writer": "native", "handler": "native", "config": {"indent": "  "}, "ns_map": {"p": "urn:a"}, "strict": True},
         {"i": 0, "writer": "lxml", "handler": "lxml", "config": {"ignore_default_attributes": True}, "ns_map": None, "strict": True}]},
     {"src": WITNESS_NIL, "name": "w_nil", "root": "A", "instances": [INST_NIL], "cases": [
         {"i": 0, "writer": "native", "handler": "native", "config": {}, "ns_map": None, "strict": True}]},
+    {"src": WITNESS_SEQTOK, "name": "w_seqtok", "root": "S", "instances": [INST_SEQTOK], "cases": [
+        {"i": 0, "writer": "native", "handler": "native", "config": {}, "ns_map": None, "strict": True}]},
 ]
 WITNESS_PATH = os.path.join(COQ, "Proofs", "RoundtripWitness.v")
 
 
 def witness_text(out):
-    rich, nil = out["jobs"]
+    rich, nil, seqtok = out["jobs"]
 
     def D(name, ty, term):
         return f"Definition {name} : {ty} :=\n  {term}.\n"
@@ -92,8 +108,8 @@ Import ListNotations.
 
 (* model `rich` (see harness/c01.py WITNESS_RICH): attributes (optional int, namespaced str with a
    default, int tokens), elements (str, unqualified str holding '', int list, token list, list of
-   token lists, nested simple-content class, a wrapped list of it, an empty wrapped list), class namespace
-   urn:a, Meta.name *)
+   token lists, nested simple-content class, a wrapped list of it, an empty wrapped list, a sequence
+   group of an int list, an optional str and a class list), class namespace urn:a, Meta.name *)
 '''
     txt += D("u_rich", "universe", rich["universe"])
     txt += D("root_rich", "cls", rich["root"])
@@ -110,6 +126,14 @@ Import ListNotations.
     txt += D("root_nil", "cls", nil["root"])
     txt += D("o_nil", "value", nil["cases"][0]["value"])
     txt += D("pevs_nil", "list pevent", nil["cases"][0]["pevents"])
+    txt += '''
+(* model `seqtok` (known finding C01-F7): S.x : token list of str, S.y : Optional[str], both in sequence
+   group 1; instance S(x=['ab', 'cd'], y='q'); the real writer printed <S><x>ab</x><y>q</y><x>cd</x></S> *)
+'''
+    txt += D("u_seqtok", "universe", seqtok["universe"])
+    txt += D("root_seqtok", "cls", seqtok["root"])
+    txt += D("o_seqtok", "value", seqtok["cases"][0]["value"])
+    txt += D("pevs_seqtok", "list pevent", seqtok["cases"][0]["pevents"])
     return txt
 
 
@@ -140,6 +164,8 @@ def check_witness(ck):
                    {"cases": out["jobs"][0]["cases"]})
     if out["jobs"][1]["cases"][0].get("equal"):
         ck.notes.append("witness of finding C01-F1 (nil conflation) round-trips now: the nillable guard clause can go")
+    if out["jobs"][2]["cases"][0].get("equal"):
+        ck.notes.append("witness of finding C01-F7 (token list in a sequence group) round-trips now: the clause of seq_member can go")
 
 
 # ------------------------------------------------------------------ guard / correspondence layer
@@ -156,6 +182,8 @@ GUARD_PREDS = {
     "in_guard": "fun k => negb (in_guard_w k)",           # "bad" = inside the guards (model + writer)
     "in_model_guard": "fun k => negb (in_guard k)",
     "wf_model": "fun k => negb (Spec.Fits.wf_model (rc_universe k) (rc_cls k))",
+    "in_guard_sequence": "fun k => negb (in_guard_w k && uses_sequence (rc_universe k))",
+    "uses_sequence": "fun k => negb (uses_sequence (rc_universe k))",
     "guard-oracle": "oracle_in_guard",
     "corr-generate-in-guard": "fun k => negb (in_guard_w k) || gen_agree k",
     "corr-parse-in-guard": "fun k => negb (in_guard_w k) || parse_agree k",
@@ -199,17 +227,20 @@ def guard_layer(ck, jobs, stats):
     stats["guard_inside"] = len(inside)
     stats["guard_inside_model_guard"] = len(bad["in_model_guard"])
     stats["guard_wf_model"] = len(bad["wf_model"])
+    stats["guard_cases_with_sequence_group"] = len(bad["uses_sequence"])
+    stats["guard_inside_with_sequence_group"] = len(bad["in_guard_sequence"])
+    stats["guard_inside_share"] = round(len(inside) / max(1, len(terms)), 3)
     stats["guard_skipped"] = skipped
     for cls in ("guard-oracle", "corr-generate-in-guard", "corr-parse-in-guard", "guard-theorem-instance",
                 "corr-reads-in-guard", "corr-composition-in-guard"):
         for i in bad[cls]:
             job, case, res = where[i]
-            ck.failure(cls, f"{cls}: inside the guards of C01_roundtrip_S4_partial {'the REAL round trip fails' if cls == 'guard-oracle' else 'model and implementation disagree'}"
+            ck.failure(cls, f"{cls}: inside the guards of C01_roundtrip_S4 {'the REAL round trip fails' if cls == 'guard-oracle' else 'model and implementation disagree'}"
                             f" (equal={res.get('equal')} kind={res.get('kind')} exc={res.get('exc')} {res.get('msg')}): {res.get('xml', '')[:300]}",
                        {"model_src": job["src"], "instance": job["instances"][case["i"]], "case": case,
                         "result": {k2: v for k2, v in res.items() if k2 in ("equal", "kind", "exc", "msg", "xml", "pcfg")}})
     if terms and not inside:
-        ck.failure("guard-vacuous", "no generated case is inside the guards of C01_roundtrip_S4_partial", {"cases": len(terms)})
+        ck.failure("guard-vacuous", "no generated case is inside the guards of C01_roundtrip_S4", {"cases": len(terms)})
     if where:
         inside_samples = [where[i] for i in sorted(inside)[:3]]
         ck.cov["samples"] += [{"inside_guard": True, "case": c, "xml": r.get("xml", "")[:400]} for _, c, r in inside_samples]
@@ -223,6 +254,79 @@ CONFIGS = [
 ]
 NS_MAPS = [None, None, {"p": "urn:a"}, {"q": "urn:unused"}, {"p": "urn:a", "p2": "urn:a"}, {"xsi": "http://www.w3.org/2001/XMLSchema-instance"},
            {"": "urn:a"}, {"ns0": "urn:b"}, {"ns1": "urn:a", "ns0": "http://example.com/c"}]
+
+
+def widen_sequences(r, m):
+    """genmodels only marks adjacent plain list elements as a sequence group; next_value also takes scalar
+    fields, and xsdata's generator puts whatever sits in a repeated xs:sequence into one: mark runs of 2-4
+    adjacent Element fields (token lists and wrapped lists rarely: known finding C01-F7 / outside the
+    proved guards)"""
+    for c in m["classes"]:
+        fs = [f for f in c["fields"] if f["kind"] in ("Element", "Elements", "Wildcard")]
+        if any(f.get("sequence") for f in fs) or r.random() >= 0.3:
+            continue
+
+        def elig(f):
+            if f["kind"] != "Element" or f.get("mixed"):
+                return False
+            if f.get("tokens"):
+                return r.random() < 0.1
+            if f.get("wrapper"):
+                return r.random() < 0.3
+            return True
+        for a in range(len(fs) - 1):
+            if elig(fs[a]) and elig(fs[a + 1]):
+                run = [fs[a], fs[a + 1]]
+                for b in range(a + 2, min(a + 4, len(fs))):
+                    if elig(fs[b]) and r.random() < 0.6:
+                        run.append(fs[b])
+                    else:
+                        break
+                num = r.choice([1, 1, 2])
+                for f in run:
+                    f["sequence"] = num
+                break
+    return m
+
+
+def span_members(fields):
+    """names of the element fields next_value renders through the rolling loop: everything from a field with a
+    `sequence` number to the last field with the same number"""
+    ev = [f for f in fields if f["kind"] in ("Element", "Elements", "Wildcard", "Text")]
+    out, i = set(), 0
+    while i < len(ev):
+        sq = ev[i].get("sequence")
+        if not sq:
+            i += 1
+            continue
+        end = max(j for j in range(i, len(ev)) if ev[j].get("sequence") == sq) + 1
+        out.update(f["name"] for f in ev[i:end])
+        i = end
+    return out
+
+
+def seq_token_fields(m, inst):
+    """(class, field) pairs of the instance whose value is a non-empty token list inside a sequence group"""
+    hits = []
+
+    def walk(x):
+        if isinstance(x, list):
+            for y in x:
+                walk(y)
+        elif isinstance(x, dict) and "__cls__" in x:
+            try:
+                c = G.find_class(m, x["__cls__"])
+                fs = G.all_fields(m, c)
+            except Exception:  # noqa
+                return
+            inside = span_members(fs)
+            for f in fs:
+                v = x["fields"].get(f["name"])
+                if f.get("tokens") and f["name"] in inside and v:
+                    hits.append((c["name"], f["name"]))
+                walk(v)
+    walk(inst)
+    return hits
 
 
 def fields_along(m, inst, path):
@@ -288,6 +392,9 @@ def classify(m, inst, case, res, vres):
         return "user-prefix-map"
     if explains("no_indent") and (".text" in path or ".tail" in path or "[" in path):
         return "indent-alters-mixed-text"
+    if seq_token_fields(m, inst) and (res.get("exc") in ("TypeError", "ParserError", "ConverterError", "AttributeError")
+                                      or any(f.get("tokens") for _, f in fields_along(m, inst, path))):
+        return "sequence-tokens-split"             # C01-F7: next_value yields the tokens one by one
     if "exc" in res:
         return "exception-" + res["exc"]
     if path.endswith("<keys>") and "XMLSchema-instance}" in res.get("back", ""):
@@ -339,7 +446,8 @@ def model_of_source(src):
             tp = re.search(r'"(C\d+)"', f.group(2))
             fields.append({"name": f.group(1), "kind": kind.group(1) if kind else "Element",
                            "type": ("class", tp.group(1)) if tp else ("prim", "str"),
-                           "nillable": "'nillable': True" in md})
+                           "nillable": "'nillable': True" in md, "tokens": "'tokens': True" in md,
+                           "sequence": (re.search(r"'sequence': (\d+)", md) or [None, None])[1]})
         classes.append({"name": m.group(1), "base": m.group(2), "meta": meta, "fields": fields})
     return {"classes": classes, "enums": [], "root": "C0"}
 
@@ -356,7 +464,7 @@ def run(ck: Check):
     jobs, metas = [], []
     for k in range(n_models):
         slices = r.choice([("F1",), ("F1",), ("F1",), ("F1", "F2"), ("F1", "F2", "F3"), ("F1", "F4"), ("F1", "F2", "F3", "F4")])
-        m = G.gen_model(r, slices=slices)
+        m = widen_sequences(r, G.gen_model(r, slices=slices))
         name = f"gm_{ck.seed}_{k}"
         insts = [G.gen_instance(r, m, m["root"]) for _ in range(4)]
         cases = []
@@ -424,9 +532,10 @@ def run(ck: Check):
                       "parse(pump(itree_of_events(generate))) are all required")
     ck.cov["input_distribution"] = stats
     ck.cov["samples"] = ck.cov["samples"] + [{"case": jobs[-1]["cases"][0], "instance": jobs[-1]["instances"][0]}]
-    ck.cov["proved_slice"] = ("C01_roundtrip_S4_partial: Attribute / Element / Text fields of primitive, enum or exact class type, optional, default, list, "
-                              "tokens, list of token lists, nested classes, wrappers, namespaces; infoset level, every reading (attribute order, prefix "
-                              "maps, indentation) and, through C03, the printed document; everything else (sequence groups, nillable, wildcards, "
-                              "compound fields, xsi:type, unions, QName values, below the infoset) is covered by correspondence + oracle only")
+    ck.cov["proved_slice"] = ("C01_roundtrip_S4: Attribute / Element / Text fields of primitive, enum or exact class type, optional, default, list, "
+                              "tokens, list of token lists, nested classes, wrappers, sequence groups (scalars and lists interleaved), namespaces; infoset "
+                              "level, every reading (attribute order, prefix maps, indentation) and, through C03, the printed document; everything else "
+                              "(wrapped lists inside a sequence group, nillable, wildcards, compound fields, xsi:type, unions, QName values, below the "
+                              "infoset) is covered by correspondence + oracle only")
     return ck.finish(obligations=obligations, discharged=discharged, checker_cmd="coqc", trusted_base=TRUSTED_COMMON,
                      assumptions=axioms)
